@@ -152,7 +152,7 @@ Definition on_wire (r : reply) : reply :=
 
 (* queue.go toSMTPErr, for a non-nil error (after the fix: the enhanced code stored by
    exterrors.SMTPError is recognised) *)
-Definition to_smtp_err (e : err) : reply :=
+Definition to_smtp_err0 (e : err) : reply :=
   let t := is_temp_or_unspec e in
   let c0 := if t then 451 else 554 in
   let en0 := if t then {| e0 := 4; e1 := 0; e2 := 0 |} else {| e0 := 5; e1 := 0; e2 := 0 |} in
@@ -164,6 +164,14 @@ Definition to_smtp_err (e : err) : reply :=
   | EGoSmtp c x m => {| r_code := c; r_ench := x; r_msg := m |}
   | _ => {| r_code := c1; r_ench := en1; r_msg := m1 |}
   end.
+
+(* ... and an enhanced code that is not set becomes the generic one of the reply class (so that
+   a failure report can always carry a status) *)
+Definition to_smtp_err (e : err) : reply :=
+  let r := to_smtp_err0 e in
+  {| r_code := r_code r;
+     r_ench := if ench_eqb (r_ench r) ench_notset then {| e0 := r_code r / 100; e1 := 0; e2 := 0 |} else r_ench r;
+     r_msg := r_msg r |}.
 
 (* exterrors.SMTPCode / SMTPEnchCode *)
 Definition smtp_code (e : err) (t p : Z) : Z := if is_temp e then t else p.
